@@ -3,6 +3,7 @@ import SpoxModel.Lemmas.OpsetRename
 import SpoxModel.Lemmas.OpsetFuncs
 import SpoxModel.Lemmas.OpsetNames
 import SpoxModel.Lemmas.OpsetMerge
+import SpoxModel.Lemmas.OpsetQualify
 /-!
 # C09 — one opset per domain; mixed-version programs build and keep their meaning
 
@@ -575,6 +576,93 @@ theorem adapted_names_fresh_pinned_counterexample :
   · decide
   · decide
 
+/-! ## the renaming step of `adapt_node`, at the level of the strings (round 10)
+
+`Opset.Qualify.qualify p ins outs nodes` is the last block of `adapt_node`: `p` = `proto.name`, `ins` / `outs` =
+`proto.input` / `proto.output`, `nodes` = the input / output name lists of the converter's nodes. It is executed by
+the driver against the real `adapt_node` (with generated converter outputs) on every run. -/
+
+section Qualify
+open Opset.Qualify
+
+/-- The converted nodes still read the operands and define the results of the original node: no name of the
+    original NodeProto (and not the empty name of an omitted optional operand) is ever renamed — whatever the
+    converter returned. -/
+theorem qualify_keeps_interface (p : Nm) (ins outs : List Nm) (nodes : List QNode) :
+    (∀ n ∈ ins ++ outs, ren p (introduced (ins ++ outs) nodes) n = n) ∧
+      ren p (introduced (ins ++ outs) nodes) [] = [] :=
+  ⟨fun _ h => ren_of_known h, ren_nil⟩
+
+/-- A conversion that introduces no value is returned verbatim. -/
+theorem qualify_nothing_introduced (p : Nm) (ins outs : List Nm) (nodes : List QNode)
+    (h : introduced (ins ++ outs) nodes = []) : qualify p ins outs nodes = nodes := by
+  unfold qualify
+  rw [h]
+  have hr : ren p [] = id := by funext n; simp [ren]
+  simp [hr]
+
+/-- Every value the returned nodes define is an operand / result of the original node, the empty name, or
+    `f"{node name}__{x}"` for a name `x` the converter introduced — nothing else can appear. -/
+theorem qualify_outputs_classified (p : Nm) (ins outs : List Nm) (nodes : List QNode) :
+    ∀ nd ∈ qualify p ins outs nodes, ∀ o ∈ nd.outs,
+      o = [] ∨ o ∈ ins ++ outs ∨ ∃ x ∈ introduced (ins ++ outs) nodes, o = qual p x := by
+  intro nd hnd o ho
+  simp only [qualify, List.mem_map] at hnd
+  obtain ⟨nd0, hnd0, rfl⟩ := hnd
+  simp only [List.mem_map] at ho
+  obtain ⟨x, hx, rfl⟩ := ho
+  by_cases hi : x ∈ introduced (ins ++ outs) nodes
+  · exact Or.inr (Or.inr ⟨x, hi, ren_of_mem hi⟩)
+  · rw [ren_of_not_mem hi]
+    by_cases he : x = []
+    · exact Or.inl he
+    · by_cases hk : x ∈ ins ++ outs
+      · exact Or.inr (Or.inl hk)
+      · exact absurd (mem_introduced.mpr ⟨⟨nd0, hnd0, hx⟩, he, hk⟩) hi
+
+/-- no name that stays as it is already looks like a qualified introduced name -/
+def NoClash (p : Nm) (ins outs : List Nm) (nodes : List QNode) : Prop :=
+  ∀ a ∈ occurring nodes, a ∉ introduced (ins ++ outs) nodes →
+    ∀ x ∈ introduced (ins ++ outs) nodes, a ≠ qual p x
+
+/-- The renaming keeps the wiring of the converter's nodes: two name occurrences are equal afterwards iff they
+    were equal before (so every converted node reads exactly the values it read in the converter's output, and
+    no two definitions are merged) — provided no name that stays (an operand / result of the original node)
+    already has the form `f"{node name}__{introduced name}"`. -/
+theorem qualify_preserves_wiring (p : Nm) (ins outs : List Nm) (nodes : List QNode)
+    (h : NoClash p ins outs nodes) (a b : Nm) (ha : a ∈ occurring nodes) (hb : b ∈ occurring nodes) :
+    ren p (introduced (ins ++ outs) nodes) a = ren p (introduced (ins ++ outs) nodes) b ↔ a = b :=
+  ⟨ren_inj (h a ha) (h b hb), fun e => e ▸ rfl⟩
+
+/-- …and the proviso is needed: the node `N` reads a value the caller named `N__t`, the converter introduces
+    `t` — after the renaming the new definition carries the operand's name. -/
+theorem qualify_wiring_counterexample :
+    let p := "N".toList; let x := "N__t".toList; let t := "t".toList; let y := "y".toList
+    qualify p [x] [y] [⟨[x], [t]⟩, ⟨[t], [y]⟩] = [⟨[x], [x]⟩, ⟨[x], [y]⟩] := by decide
+
+/-- Node names as the builder assigns them (`{op_type}_{i}`: no `__` inside, no `_` at the end) qualify
+    injectively: `f"{p₁}__{a}" = f"{p₂}__{b}"` only for `p₁ = p₂` and `a = b`. -/
+theorem qualified_names_disjoint (p₁ p₂ a b : Nm) (h₁ : Clean p₁) (h₂ : Clean p₂)
+    (h : qual p₁ a = qual p₂ b) : p₁ = p₂ ∧ a = b :=
+  qual_prefix_inj h₁ h₂ h
+
+/-- `adapted_names_fresh` at the level of the STRINGS, for the converter-introduced names: for any number of
+    converted nodes with pairwise different builder-assigned names, each conversion introducing distinct
+    names, all the qualified names of the model are pairwise different strings. -/
+theorem adapted_names_fresh_strings (cs : List (Nm × List Nm))
+    (hp : (cs.map (·.1)).Nodup) (hc : ∀ c ∈ cs, Clean c.1) (hn : ∀ c ∈ cs, c.2.Nodup) :
+    (cs.flatMap (fun c => c.2.map (qual c.1))).Nodup :=
+  qualified_nodup cs hp hc hn
+
+/-- …and cleanness of the node names is needed: `A` + `__` + `_x` = `A_` + `__` + `x`. -/
+theorem clean_needed_counterexample :
+    "A".toList ≠ "A_".toList ∧ qual "A".toList "_x".toList = qual "A_".toList "x".toList := by decide
+
+/-- the executable test used for the witnesses (and mirrored by the harness on every observed node name) -/
+theorem cleanB_clean (p : Nm) (h : cleanB p = true) : Clean p := cleanB_sound p h
+
+end Qualify
+
 /-! ## non-vacuity -/
 
 /-- two v17 reductions next to a v18 one, an inlined opset-11 model, an ml operator: imports and decisions -/
@@ -645,5 +733,37 @@ example : (buildModel genFacts inlineMixExample).imports = [("", 21), ("ai.onnx.
   decide +kernel
 example : (buildModel genFacts inlineMixExample).main.map (·.decision) =
     [.convertInline 11 21, .keepSameVersion, .convertInline 17 21, .keepInline, .keepSameVersion] := by decide +kernel
+
+/-- `reduce_mean(x, axes=[1])` (v17) named `ReduceMean_0`, converted to 18: the converter adds a Constant defining
+    `_v_4` and feeds it to the ReduceMean; two such nodes introduce different strings -/
+example : Opset.Qualify.qualify "ReduceMean_0".toList ["x".toList] ["ReduceMean_0_reduced".toList]
+      [⟨[], ["_v_4".toList]⟩, ⟨["x".toList, "_v_4".toList], ["ReduceMean_0_reduced".toList]⟩] =
+    [⟨[], ["ReduceMean_0___v_4".toList]⟩,
+     ⟨["x".toList, "ReduceMean_0___v_4".toList], ["ReduceMean_0_reduced".toList]⟩] := by decide
+example : Opset.Qualify.Clean "ReduceMean_0".toList ∧ Opset.Qualify.Clean "ReduceMean_1".toList :=
+  ⟨cleanB_clean _ (by decide), cleanB_clean _ (by decide)⟩
+example : (([("ReduceMean_0".toList, ["_v_4".toList]), ("ReduceMean_1".toList, ["_v_4".toList])] :
+      List (Opset.Qualify.Nm × List Opset.Qualify.Nm)).flatMap
+        (fun c => c.2.map (Opset.Qualify.qual c.1))).Nodup :=
+  adapted_names_fresh_strings _ (by decide)
+    (by intro c hc; simp only [List.mem_cons, List.mem_nil_iff, or_false] at hc
+        rcases hc with rfl | rfl <;> exact cleanB_clean _ (by decide))
+    (by intro c hc; simp only [List.mem_cons, List.mem_nil_iff, or_false] at hc
+        rcases hc with rfl | rfl <;> decide)
+example : NoClash "N".toList ["x".toList] ["y".toList] [⟨["x".toList], ["t".toList]⟩, ⟨["t".toList], ["y".toList]⟩] := by
+  intro a ha _ x hx
+  have hx' : x = "t".toList := by
+    have : x ∈ ["t".toList] := by
+      have e : Opset.Qualify.introduced (["x".toList] ++ ["y".toList])
+          [⟨["x".toList], ["t".toList]⟩, ⟨["t".toList], ["y".toList]⟩] = ["t".toList] := by decide
+      rw [e] at hx; exact hx
+    simpa using this
+  subst hx'
+  have : a ∈ ["x".toList, "t".toList, "t".toList, "y".toList] := by
+    have e : Opset.Qualify.occurring [⟨["x".toList], ["t".toList]⟩, ⟨["t".toList], ["y".toList]⟩] =
+        ["x".toList, "t".toList, "t".toList, "y".toList] := by decide
+    rw [e] at ha; exact ha
+  simp only [List.mem_cons, List.mem_nil_iff, or_false] at this
+  rcases this with rfl | rfl | rfl | rfl <;> decide
 
 end C09
